@@ -69,9 +69,18 @@ func TestVerifC18ServerSelectsEachShare(t *testing.T) {
 			st.Class("no-cert-type")
 			return
 		}
+		// a real ECH configuration (accepted by the server) for sources whose hello carries an ECH extension: the
+		// handshake then continues with the inner hello, whose key shares are the outer hello's
+		var ccm, scm func(*Config)
+		if probe.Offer.Hello.ECH() != nil && src.Kind != "golang" && rapid.Bool().Draw(rt, "real_ech") {
+			list, key := vfMakeECHConfig(rapid.Uint64Range(1, 250).Draw(rt, "ech_id"), "public.c18.test")
+			ccm = func(c *Config) { c.EncryptedClientHelloConfigList = list }
+			scm = func(c *Config) { c.EncryptedClientHelloKeys = []EncryptedClientHelloKey{key} }
+			st.Class("with-accepted-ech")
+		}
 		for gi, g := range groups {
 			choice := vfSrvChoice{Ver: VersionTLS13, Group: g, CertKey: keys[0]}
-			res := vfGridRun(rt, st, "C18", vfGridOpts{Src: &src, SNI: &sni, Choice: &choice, KeepOpen: true, Label: fmt.Sprintf("g%d_", gi)})
+			res := vfGridRun(rt, st, "C18", vfGridOpts{Src: &src, SNI: &sni, Choice: &choice, KeepOpen: true, Label: fmt.Sprintf("g%d_", gi), CCfgMod: ccm, SCfgMod: scm})
 			if res == nil || !res.OK {
 				continue
 			}
